@@ -842,6 +842,9 @@ func (ex *Exec) load(st *State, p Value, pc *Term) Value {
 			}
 			ex.unsupported("load through %s", describeValue(v))
 		}
+		if ptr.A == ex.top.poolItem && ex.top.poolItem != nil && st.owned != nil {
+			ex.vc.Oblige(ex.obName("pool", "item_used_only_while_owned"), "frame", Implies(pc, st.owned))
+		}
 		root, ok := st.mem[ptr.A]
 		if !ok {
 			if ex.vc.GState != nil {
